@@ -30,6 +30,29 @@
 (*                 established connection still round-trips and still     *)
 (*                 shows the identity it handshook with.                   *)
 (*                                                                         *)
+(*  ev = "rscript" / "rstep"   the same machine, observed through the REAL  *)
+(*                 server entry point: server_main running in the harness  *)
+(*                 process on a loopback TCP port with --tls-cert/--tls-key *)
+(*                 (and --tls-ca for mtls), connections made with the      *)
+(*                 application's tls_connect presenting `cc`, an HTTP      *)
+(*                 request/response as the application-data round trip,    *)
+(*                 reloads by rewriting the files and raising SIGUSR1.     *)
+(*                 Only the client end is observable.  The outcome class   *)
+(*                 (RObs): ok = an HTTP response came back; clientRejects  *)
+(*                 = the client refused the server's certificate;          *)
+(*                 serverRejects = no response and the server ended the    *)
+(*                 connection (alert / EOF / reset, during the handshake   *)
+(*                 or - TLS 1.3 - at the first round trip).  It must be    *)
+(*                 in TlsAuth!HandshakeOutcome(cc), i.e. the cell of the   *)
+(*                 decision table for the CONFIGURED client CA, before and *)
+(*                 after every reload; every handshake that got as far as  *)
+(*                 the server's certificate saw the identity `live`.       *)
+(*                 A reload line reports what the harness waited for: a    *)
+(*                 probe handshake that was served the new identity        *)
+(*                 (res = "ok"), or "stale" when SIGUSR1 was delivered to  *)
+(*                 the process and the old identity was still served at    *)
+(*                 the deadline.                                           *)
+(*                                                                         *)
 (* Acceptance: POSTCONDITION Accepted (as in SocksTrace.tla / MuxTrace).   *)
 (* With Collect = TRUE unmatched lines are recorded (with a signature) and *)
 (* the walk goes on, the machine following the specification.              *)
@@ -117,6 +140,7 @@ MatchStep(r) ==
          /\ RoundTrips(r)
          /\ ShowsIdentity(r, live)
          /\ live = identityVersion
+         /\ r.mtls = (wantCA = "configured") /\ ConfigKept
          /\ r.srv_saw_client_cert = r.mtls
     [] r.op = "reload" ->
          /\ r.res = "ok"
@@ -146,30 +170,107 @@ SigStep(r) ==
        ELSE IF ~ShowsIdentity(r, Sees(r.conn)) THEN "established_connection_changes_identity"
        ELSE "other:use"
 
+(* ------------------------------ real-server lines ------------------------------ *)
+\* an HTTP response came back: the request reached the server's application layer
+RReached(r) == r.http_status \in 100 .. 599
+\* how a connection the server ended looks from the client end
+Refusal == {"alert", "eof", "closed"}
+Refused(r) == r.client_hs \in Refusal \/ (r.client_hs = "ok" /\ r.client_rt \in Refusal)
+
+RObs(r) ==
+  IF RReached(r) THEN "ok"
+  ELSE IF r.client_hs = "bad_cert" THEN "clientRejects"
+  ELSE IF Refused(r) THEN "serverRejects"
+  ELSE "undetermined"
+
+MatchRStep(r) ==
+  CASE r.op = "connect" ->
+         /\ r.cc \in ClientCerts
+         /\ r.mtls = (wantCA = "configured")
+         \* authenticated exactly as configured, whatever number of reloads happened
+         /\ ConfigKept
+         /\ LET o == RObs(r)
+            IN /\ o \in HandshakeOutcome(r.cc)
+               /\ r.conn = (IF Admitted(r.cc) THEN Len(conns) + 1 ELSE 0)
+               /\ o = "ok" => r.client_hs = "ok" /\ r.client_rt = "ok"
+               /\ o # "ok" => r.http_status = 0 /\ r.cli_data = ""
+               \* TLS 1.3: the client has the server's certificate before the server judges the client's
+               /\ r.client_hs = "ok" => ShowsIdentity(r, live)
+               /\ live = identityVersion
+    [] r.op = "reload" ->
+         \* the harness saw a handshake served with the new identity after SIGUSR1
+         /\ r.res = "ok"
+         /\ r.to = identityVersion + 1
+         /\ r.seen_serial = IdentSerial(identityVersion + 1)
+    [] r.op = "use" ->
+         /\ r.conn \in DOMAIN conns
+         /\ RReached(r) /\ r.client_rt = "ok"
+         /\ Works(r.conn)
+         /\ ShowsIdentity(r, Sees(r.conn))
+         /\ Sees(r.conn) = conns[r.conn].ver
+    [] OTHER -> FALSE
+
+SigRStep(r) ==
+  IF r.op \notin StepOps THEN (IF r.op = "panic" THEN "panic:script" ELSE "other:malformed_line")
+  ELSE IF r.op = "reload"
+  THEN (IF r.res = "panic" THEN "panic:reload"
+        ELSE IF r.res = "stale" THEN "reload_not_effective"
+        ELSE "reload_failed")
+  ELSE IF "panic" \in {r.client_hs, r.client_rt} THEN "panic:" \o r.op
+  ELSE IF r.op = "connect"
+  THEN IF r.cc \notin ClientCerts \/ r.mtls # (wantCA = "configured") THEN "other:malformed_line"
+       ELSE LET k == HandshakeCell(r.cc, wantCA)
+                o == RObs(r)
+            IN IF o = "ok" /\ ~ServerAccepts(k)
+               THEN (IF identityVersion > 0 THEN "reload_drops_client_auth" ELSE "server_accepts_unauthenticated_client")
+               ELSE IF o = "serverRejects" /\ ServerAccepts(k)
+               THEN (IF identityVersion > 0 THEN "handshake_fails_after_reload"
+                     ELSE IF ServerAsksForCert(k) THEN "server_rejects_valid_client_cert"
+                     ELSE "server_demands_client_cert_without_ca")
+               ELSE IF o = "clientRejects" THEN "client_rejects_valid_server_cert"
+               ELSE IF o = "undetermined" THEN "other:undetermined_failure"
+               ELSE IF r.client_hs = "ok" /\ ~ShowsIdentity(r, live) THEN "new_handshake_sees_stale_identity"
+               ELSE IF o # "ok" /\ (r.http_status # 0 \/ r.cli_data # "") THEN "data_delivered_despite_rejection"
+               ELSE "other:connect"
+  ELSE IF r.conn \notin DOMAIN conns THEN "other:malformed_line"
+  ELSE IF r.client_hs = "gone" THEN "other:use_of_failed_connection"
+  ELSE IF ~(RReached(r) /\ r.client_rt = "ok") THEN "reload_disturbs_established_connection"
+       ELSE IF ~ShowsIdentity(r, Sees(r.conn)) THEN "established_connection_changes_identity"
+       ELSE "other:use"
+
 \* The machine follows the specification whatever was observed, with one exception: a handshake that was
 \* served with an identity other than `live` (an unmatched line, recorded above) pins the connection to the
 \* identity it actually saw, so that later uses of it are judged by "keeps seeing the identity it handshook
 \* with" and one defect does not cascade into a second signature.
 ObsVer(r) == IF r.seen_serial - 100 \in 0 .. identityVersion THEN r.seen_serial - 100 ELSE live
 Advance(r) ==
-  CASE r.ev = "script" -> identityVersion' = 0 /\ live' = 0 /\ conns' = <<>>
+  CASE r.ev \in {"script", "rscript"} ->
+         /\ identityVersion' = 0 /\ live' = 0 /\ conns' = <<>>
+         /\ wantCA' = CAOf(r.mtls) /\ liveCA' = CAOf(r.mtls)
     [] r.ev = "step" /\ r.op = "connect" ->
          IF ObsVer(r) = live THEN Connect
-         ELSE /\ conns' = Append(conns, [born |-> identityVersion, ver |-> ObsVer(r), cfg |-> ObsVer(r), alive |-> TRUE])
-              /\ UNCHANGED <<identityVersion, live>>
-    [] r.ev = "step" /\ r.op = "reload" -> Reload
-    [] r.ev = "step" /\ r.op = "use" /\ r.conn \in DOMAIN conns -> Use(r.conn)
+         ELSE /\ conns' = Append(conns, [born |-> identityVersion, ver |-> ObsVer(r), cfg |-> ObsVer(r), alive |-> TRUE, cc |-> RightCert])
+              /\ UNCHANGED <<identityVersion, live, wantCA, liveCA>>
+    [] r.ev = "rstep" /\ r.op = "connect" /\ r.cc \in ClientCerts ->
+         IF ObsVer(r) = live \/ ~Admitted(r.cc) THEN ConnectAs(r.cc)
+         ELSE /\ conns' = Append(conns, [born |-> identityVersion, ver |-> ObsVer(r), cfg |-> ObsVer(r), alive |-> TRUE, cc |-> r.cc])
+              /\ UNCHANGED <<identityVersion, live, wantCA, liveCA>>
+    [] r.ev \in {"step", "rstep"} /\ r.op = "reload" -> Reload
+    [] r.ev \in {"step", "rstep"} /\ r.op = "use" /\ r.conn \in DOMAIN conns -> Use(r.conn)
     [] OTHER -> UNCHANGED mvars
 
 Match(r) ==
   CASE r.ev = "case"   -> MatchCase(r)
     [] r.ev = "script" -> r.mtls \in BOOLEAN
     [] r.ev = "step"   -> MatchStep(r)
+    [] r.ev = "rscript" -> r.mtls \in BOOLEAN
+    [] r.ev = "rstep"  -> MatchRStep(r)
     [] OTHER -> FALSE
 
 Sig(r) ==
   CASE r.ev = "case" -> SigCase(r)
     [] r.ev = "step" -> SigStep(r)
+    [] r.ev = "rstep" -> SigRStep(r)
     [] OTHER -> "other:malformed_line"
 
 ExpectView(r) ==
@@ -181,6 +282,12 @@ ExpectView(r) ==
     [] r.ev = "step" /\ r.op = "connect" -> [handshake |-> "ok", identity |-> live, cn |-> IdentCN(live), serverSeesClientCert |-> r.mtls]
     [] r.ev = "step" /\ r.op = "reload" -> [res |-> "ok", to |-> identityVersion + 1]
     [] r.ev = "step" /\ r.op = "use" /\ r.conn \in DOMAIN conns ->
+         [roundtrip |-> "ok", identity |-> conns[r.conn].ver, cn |-> IdentCN(conns[r.conn].ver)]
+    [] r.ev = "rstep" /\ r.op = "connect" /\ r.cc \in ClientCerts ->
+         [outcome |-> HandshakeOutcome(r.cc), observed |-> RObs(r), serverClientCA |-> wantCA, reloadsSoFar |-> identityVersion,
+          identity |-> live, cn |-> IdentCN(live), conn |-> (IF Admitted(r.cc) THEN Len(conns) + 1 ELSE 0)]
+    [] r.ev = "rstep" /\ r.op = "reload" -> [res |-> "ok", to |-> identityVersion + 1, serial |-> IdentSerial(identityVersion + 1)]
+    [] r.ev = "rstep" /\ r.op = "use" /\ r.conn \in DOMAIN conns ->
          [roundtrip |-> "ok", identity |-> conns[r.conn].ver, cn |-> IdentCN(conns[r.conn].ver)]
     [] OTHER -> [error |-> "malformed line"]
 
@@ -198,7 +305,7 @@ Step ==
   /\ l' = l + 1
 
 Next == Step
-Spec == Init /\ [][Next]_<<l, identityVersion, live, conns>>
+Spec == Init /\ [][Next]_<<l, identityVersion, live, conns, wantCA, liveCA>>
 
 Track == IF TLCGet(1) < l THEN TLCSet(1, l) ELSE TRUE
 
